@@ -51,6 +51,16 @@ class TLCResult:
             res.append(json.loads(json.loads('"' + m.group(2) + '"')))
         return res
 
+    def json_lines(self, tag="EXP"):
+        """Records printed as PrintT(ToJson([tag |-> <tag>, ...])): one quoted JSON string per line
+        (atomic even with many workers)."""
+        res = []
+        needle = '\\"tag\\":\\"' + tag + '\\"'
+        for ln in self.out.splitlines():
+            if ln.startswith('"{') and needle in ln:
+                res.append(json.loads(json.loads(ln)))
+        return res
+
     def printed(self):
         """All values printed with PrintT, one normalised string each.  TLC pretty-prints long
         values over several lines; lines are re-assembled by bracket matching."""
